@@ -171,7 +171,7 @@ def table_core(u, name, table, sym, tol_check=True, var="weight"):
 def units(ctx):
     u = Unit("C09", "simpson", preludes=("real",))
     u.rlimit = 150
-    u.timeout = 900
+    u.timeout = 600
     u.spec(SIMPSON_SPEC)
     simpson(u)
     from vx.extract import Config
